@@ -643,6 +643,7 @@ typedef struct
     size_t n;
     unsigned char pay[QMAX][QSZ]; /* payload bytes */
     void *addr[QMAX];             /* payload address while enqueued */
+    int by_ctor;
 } qmodel;
 static qmodel Q[2];
 static size_t q_siz_cb;
@@ -757,7 +758,15 @@ static void que_case(uint64_t c, vf_rng *r)
     for (int k = 0; k < 2; ++k)
     {
         memset(&Q[k], 0, sizeof(Q[k]));
-        Q[k].q = a_que_new(siz);
+        if ((c >> 2 ^ (uint64_t)k) & 1)
+        {
+            Q[k].q = (a_que *)malloc(sizeof(a_que)); /* constructor/destructor on caller-provided storage */
+            memset(Q[k].q, 0x5A, sizeof(a_que));
+            a_que_ctor(Q[k].q, siz);
+            Q[k].by_ctor = 1;
+            VF_COUNT("que-ctor-dtor-on-caller-storage");
+        }
+        else { Q[k].q = a_que_new(siz); }
         Q[k].siz = siz ? siz : 1;
     }
     if (vf_want_sample() && c % 9 == 2)
@@ -908,10 +917,15 @@ static void que_case(uint64_t c, vf_rng *r)
             VF_COUNT("que-whole-swap");
             cell3(opname, emp(Q[0].n), emp(Q[1].n), 0);
             t = Q[0];
-            Q[0] = Q[1];
-            Q[1] = t;
-            Q[0].q = q0;
-            Q[1].q = q1;
+            {
+                int c0 = Q[0].by_ctor, c1 = Q[1].by_ctor;
+                Q[0] = Q[1];
+                Q[1] = t;
+                Q[0].q = q0;
+                Q[1].q = q1;
+                Q[0].by_ctor = c0;
+                Q[1].by_ctor = c1;
+            }
             break;
         }
         case 16:
@@ -971,8 +985,11 @@ static void que_case(uint64_t c, vf_rng *r)
     {
         opname = "die";
         vf_log("que die both");
-        a_que_die(Q[0].q, NULL);
-        a_que_die(Q[1].q, q_dtor);
+        for (int k = 0; k < 2; ++k)
+        {
+            if (Q[k].by_ctor) { a_que_dtor(Q[k].q, k ? q_dtor : NULL); free(Q[k].q); }
+            else { a_que_die(Q[k].q, k ? q_dtor : NULL); }
+        }
         VF_COUNT("que-destroyed");
     }
 }
